@@ -40,10 +40,15 @@ WIDE = {"int", "float"}
 def dispatch(fn):
     """Fold the if/elif chain on the upper-cased type name: [(names, body stmts, test node)] + else body."""
     chain = None
+    tv = next((n.targets[0].id for n in walk_no_nested(fn) if isinstance(n, ast.Assign) and isinstance(n.targets[0], ast.Name)
+               and re.fullmatch(r"self\.ftype\.upper\(\)", unparse(n.value))), None)
+    if tv is None:
+        raise AnalysisError("validate_value: the upper-cased datatype local was not found")
+    pat = rf"{re.escape(tv)} (==|in) "
     for n in walk_no_nested(fn):
-        if isinstance(n, ast.If) and re.match(r"t (==|in) ", unparse(n.test)):
+        if isinstance(n, ast.If) and re.match(pat, unparse(n.test)):
             par = getattr(n, "_parent", None)
-            if isinstance(par, ast.If) and par.orelse == [n] and re.match(r"t (==|in) ", unparse(par.test)):
+            if isinstance(par, ast.If) and par.orelse == [n] and re.match(pat, unparse(par.test)):
                 continue  # an elif link, not the head of the chain
             chain = n
             break
@@ -55,7 +60,7 @@ def dispatch(fn):
     while True:
         t = cur.test
         names = None
-        if isinstance(t, ast.Compare) and len(t.ops) == 1 and unparse(t.left) == "t":
+        if isinstance(t, ast.Compare) and len(t.ops) == 1 and unparse(t.left) == tv:
             c = t.comparators[0]
             if isinstance(t.ops[0], ast.Eq) and isinstance(c, ast.Constant):
                 names = [c.value]
@@ -202,7 +207,9 @@ def run(ctx):
     raises = [n for n in walk_no_nested(fn) if isinstance(n, ast.Raise)]
     ctx.instance(R5, "validate_value[raises only FIXMessageError]", bool(raises) and all(n.exc is not None and unparse(n.exc.func if isinstance(n.exc, ast.Call) else n.exc) == "FIXMessageError" for n in raises),
                  "validate_value raises something else than FIXMessageError", loc(fn))
-    err_raise = [n for n in g.nodes if n.kind == "stmt" and isinstance(n.ast, ast.Raise) and any(tv and a == "err" for t, lab in g.guards(n.id, exc=False) for a, tv in facts(t, lab == "true"))]
+    errv = next((unparse(n.targets[0]) for n in walk_no_nested(fn) if isinstance(n, ast.Assign) and isinstance(n.targets[0], ast.Name)
+                 and isinstance(n.value, ast.Call) and unparse(n.value.func).endswith("_validate_special_cases")), "err")
+    err_raise = [n for n in g.nodes if n.kind == "stmt" and isinstance(n.ast, ast.Raise) and any(tv and a == errv for t, lab in g.guards(n.id, exc=False) for a, tv in facts(t, lab == "true"))]
     ctx.instance(R5, "validate_value[error string => FIXMessageError]", len(err_raise) == 1, "a helper's error string is not turned into a FIXMessageError at exactly one site", loc(fn))
     asserts = [n for n in walk_no_nested(fn) if isinstance(n, ast.Assert)]
     ctx.instance(R5, "validate_value[no assert on the value]", not asserts, "validate_value asserts on the value: message data raises AssertionError", loc(asserts[0]) if asserts else loc(fn))
@@ -232,7 +239,7 @@ def run(ctx):
     ctx.instance(R6, "_validate_special_cases[only clears, only tag 16 value '0']", ok,
                  "the special case does more than clearing the error for EndSeqNo(16)='0': it widens (or narrows) another field's language", loc(sp))
     calls = [c for c in walk_no_nested(fn) if isinstance(c, ast.Call) and unparse(c.func).endswith("_validate_special_cases")]
-    ctx.instance(R6, "validate_value[special case applied to the helper verdict]", len(calls) == 1 and [unparse(a) for a in calls[0].args] == ["value", "err"],
+    ctx.instance(R6, "validate_value[special case applied to the helper verdict]", len(calls) == 1 and [unparse(a) for a in calls[0].args] == [fn.args.args[1].arg, errv],
                  "the special-case hook is not applied exactly once to (value, err)", loc(fn))
 
 
@@ -443,12 +450,15 @@ def monthyear(ctx, rule, repo, dt_guards):
     fn = repo.func(MY)
     # formats handed on to the datetime helper
     fmts = set()
+    vparam = fn.args.args[0].arg
+    fmt_local = next((unparse(c.args[1]) for c in walk_no_nested(fn) if isinstance(c, ast.Call) and unparse(c.func).endswith("_validate_value_datetime") and len(c.args) == 2
+                      and isinstance(c.args[1], ast.Name)), "format")
     for n in walk_no_nested(fn):
-        if isinstance(n, ast.Assign) and unparse(n.targets[0]) == "format" and isinstance(n.value, ast.Constant):
+        if isinstance(n, ast.Assign) and unparse(n.targets[0]) == fmt_local and isinstance(n.value, ast.Constant):
             fmts.add(n.value.value)
     rets = [n for n in walk_no_nested(fn) if isinstance(n, ast.Return)]
     final = [n for n in rets if isinstance(n.value, ast.Call) and unparse(n.value.func).endswith("_validate_value_datetime")]
-    ok_shape = len(final) == 1 and [unparse(a) for a in final[0].value.args] == ["value", "format"] and \
+    ok_shape = len(final) == 1 and [unparse(a) for a in final[0].value.args] == [vparam, fmt_local] and \
         all(isinstance(n.value, (ast.Constant, ast.JoinedStr)) or n is final[0] for n in rets)
     ctx.instance(rule, "MONTHYEAR[every accepting path ends in the datetime helper]", ok_shape,
                  "a MonthYear value can be accepted without passing the datetime helper (and its lexical guard)", loc(fn))
@@ -505,7 +515,9 @@ def string_helper(ctx, rule, repo):
 def number_options(ctx, rule, repo):
     fn = repo.func(NUM)
     g = CFG(fn)
-    want = {"no_zero": ["v == 0"], "no_negative": ["v < 0"], "no_nonfinite": ["isfinite(float(v))"], "num_range": ["v >= num_range[0]", "v <= num_range[1]"]}
+    v = next((unparse(n.targets[0]) for n in walk_no_nested(fn) if isinstance(n, ast.Assign) and isinstance(n.targets[0], ast.Name)
+              and isinstance(n.value, ast.Call) and unparse(n.value.func) in ("num_type", "int", "float")), "v")
+    want = {"no_zero": [f"{v} == 0"], "no_negative": [f"{v} < 0"], "no_nonfinite": [f"isfinite(float({v}))"], "num_range": [f"{v} >= num_range[0]", f"{v} <= num_range[1]"]}
     for opt, needles in want.items():
         hit = False
         for n in g.nodes:
